@@ -193,6 +193,9 @@ func runCase(c protox.Case) (res protox.Result) {
 	w.Net.QuiesceTimeout = 20 * time.Second
 	w.EnableRelay(nil)
 	w.DialRaw = map[string]bool{"origin": true}
+	if strings.Contains(c.Key, "pull-url-length") {
+		w.DialRaw = nil // the upstream of these cases is a reference server that answers the handshake and the commands
+	}
 	w.RelaxedRelay = true
 	defer w.Close()
 	if bytes.Contains(in, []byte("$W")) {
@@ -357,7 +360,7 @@ func runCase(c protox.Case) (res protox.Result) {
 	case "http":
 		err = runHttp(w, d.Stage, in, &res)
 	case "api":
-		err = runApi(w, d.Stage, in, &res)
+		err = runApi(w, d.Stage, in, &res, strings.Contains(c.Key, "pull-url-length"))
 	case "rtmp-pull", "rtmp-push", "rtsp-pull", "flv-pull":
 		err = runClient(w, d, in, &res)
 	default:
@@ -513,7 +516,7 @@ func countPs(w *world.W) int {
 	return n
 }
 
-func runApi(w *world.W, stage string, in []byte, res *protox.Result) error {
+func runApi(w *world.W, stage string, in []byte, res *protox.Result, acceptDials bool) error {
 	h := logic.VerifApiHandler(w.SM)
 	method := "POST"
 	path := stage
@@ -555,7 +558,12 @@ func runApi(w *world.W, stage string, in []byte, res *protox.Result) error {
 		}
 	}
 	for _, d := range w.PendingDials() {
-		d.Refuse()
+		if acceptDials {
+			d.Accept() // the upstream answers like a server: the client session gets to send its commands
+		} else {
+			d.Refuse()
+		}
 	}
-	return w.Settle()
+	err = w.Settle()
+	return err
 }
